@@ -1,4 +1,6 @@
 import Iauthd.Proto.Props
+import Iauthd.Proto.Start07
+import Iauthd.Properties.C10
 /-
   Property C07 — "Concurrent clients do not interfere" (model part): frame theorems.  Whatever
   one client's event does, it is computed from that client's record and the static tables
@@ -29,5 +31,80 @@ theorem C07_handler_input (s : State) (r : Req) (f : Ctx → M Ctx) :
     withReq s r f = (f (ctx0 s r)).map fun c =>
       ({ s with reqs := if c.gone then removeReq r.client s.reqs else putReq c.req s.reqs,
                 svcs := c.svcs, rules := c.rules, stats := c.stats }, c.out) := withReq_eq s r f
+
+/-! ### every history -/
+
+/-- **C07 for every history of client events.**  From any state that satisfies the table invariant
+    and in which every service slot in use is a configured service: take any list of client events
+    (lines of clients, replies routed to the live instance of a client, timer expiries) on which the
+    daemon runs; then the daemon also runs on the sub-list of the events of one client `cl`, and
+    event by event (`Conv`)
+    * an event of `cl` writes the same lines in both runs, except that a query carries the routing
+      tag of its own run - same client id, that run's serial (`OutRel` / `LineRel`);
+    * an event of any other client writes only global notices and lines rendered for a request of
+      that other client (`Foreign`).
+    Nothing else is assumed about the other clients' traffic: which ids, how many, in which order. -/
+theorem C07_history (cl : Int) (s : State) (hi : Inv s) (hc : AllConf s.svcs) (es : List Ev07) (hw : ∀ e ∈ es, e.WF)
+    (sf : State) (outs : List (List Bytes)) (hr : run07 s es = .ok (sf, outs)) :
+    ∃ sf' outs', run07 s (es.filter fun e => e.owner == cl) = .ok (sf', outs') ∧ Conv cl es outs outs' := by
+  obtain ⟨sf', outs', h1, _, h3⟩ := run07_conv cl es s s (SR.refl cl s hc) hi hw sf outs hr
+  exact ⟨sf', outs', h1, h3⟩
+
+/-- … in particular from the daemon as started on any configuration -/
+theorem C07_history_started (hasXq hasClass : Bool) (hdep : hasClass = true → hasXq = true) (lim : Limits)
+    (hacc : 0 < lim.account) (cfg : Config) (cl : Int) (es : List Ev07) (hw : ∀ e ∈ es, e.WF)
+    (sf : State) (outs : List (List Bytes))
+    (hr : run07 (applyConfig (bootState hasXq hasClass lim) {} cfg true).1 es = .ok (sf, outs)) :
+    ∃ sf' outs', run07 (applyConfig (bootState hasXq hasClass lim) {} cfg true).1 (es.filter fun e => e.owner == cl) = .ok (sf', outs')
+      ∧ Conv cl es outs outs' :=
+  C07_history cl _ (start_inv hasXq hasClass hdep lim hacc cfg) (start_allConf hasXq hasClass lim cfg) es hw sf outs hr
+
+/-- the same without any hypothesis about the run: the model has no failing step on client events
+    (`run07_total`), so both runs exist for every history -/
+theorem C07_history_started_total (hasXq hasClass : Bool) (hdep : hasClass = true → hasXq = true) (lim : Limits)
+    (hacc : 0 < lim.account) (cfg : Config) (cl : Int) (es : List Ev07) (hw : ∀ e ∈ es, e.WF) :
+    ∃ sf outs sf' outs', run07 (applyConfig (bootState hasXq hasClass lim) {} cfg true).1 es = .ok (sf, outs) ∧
+      run07 (applyConfig (bootState hasXq hasClass lim) {} cfg true).1 (es.filter fun e => e.owner == cl) = .ok (sf', outs') ∧
+      Conv cl es outs outs' := by
+  obtain ⟨⟨sf, outs⟩, hr⟩ := run07_total es _ (start_inv hasXq hasClass hdep lim hacc cfg)
+  obtain ⟨sf', outs', h1, h2⟩ := C07_history_started hasXq hasClass hdep lim hacc cfg cl es hw sf outs hr
+  exact ⟨sf, outs, sf', outs', hr, h1, h2⟩
+
+/-- the three module sets of the daemon meet the hypotheses -/
+example (cfg : Config) (cl : Int) (es : List Ev07) (hw : ∀ e ∈ es, e.WF) :=
+  C07_history_started_total true true (by decide) {} (by decide) cfg cl es hw
+example (cfg : Config) (cl : Int) (es : List Ev07) (hw : ∀ e ∈ es, e.WF) :=
+  C07_history_started_total true false (by decide) {} (by decide) cfg cl es hw
+example (cfg : Config) (cl : Int) (es : List Ev07) (hw : ∀ e ∈ es, e.WF) :=
+  C07_history_started_total false false (by decide) {} (by decide) cfg cl es hw
+
+/-- a client line is one: `5 N host`; a reply spelled as a line of a client is not (`5 X …`) -/
+example : ClientLine (b "5 N host.example") := by
+  refine ⟨by decide, ?_⟩
+  intro a0 args h
+  have : (tokenize (b "5 N host.example")).argv = [b "N", b "host.example"] := by decide
+  rw [this] at h
+  cases h
+  decide
+example : ¬ ClientLine (b "5 X svc 7_1 :OK") := by
+  intro h
+  have := h.2 (b "X") [b "svc", b "7_1", b "OK"] (by decide)
+  exact absurd this.1 (by decide)
+
+/-- two interleavings of the same per-client streams give `cl` the same conversation as `cl` alone,
+    hence the same as each other (up to the serial in the routing tags): the statement of the
+    property is the composition of two instances of `C07_history`. -/
+theorem C07_two_interleavings (cl : Int) (s : State) (hi : Inv s) (hc : AllConf s.svcs) (es1 es2 : List Ev07)
+    (hw1 : ∀ e ∈ es1, e.WF) (hw2 : ∀ e ∈ es2, e.WF)
+    (hsame : (es1.filter fun e => e.owner == cl) = (es2.filter fun e => e.owner == cl))
+    (sf1 sf2 : State) (o1 o2 : List (List Bytes)) (h1 : run07 s es1 = .ok (sf1, o1)) (h2 : run07 s es2 = .ok (sf2, o2)) :
+    ∃ sf' solo, run07 s (es1.filter fun e => e.owner == cl) = .ok (sf', solo) ∧ Conv cl es1 o1 solo ∧ Conv cl es2 o2 solo := by
+  obtain ⟨sfa, oa, ra, ca⟩ := C07_history cl s hi hc es1 hw1 sf1 o1 h1
+  obtain ⟨sfb, ob, rb, cb⟩ := C07_history cl s hi hc es2 hw2 sf2 o2 h2
+  rw [← hsame] at rb
+  rw [ra] at rb
+  simp only [Except.ok.injEq, Prod.mk.injEq] at rb
+  obtain ⟨_, rfl⟩ := rb
+  exact ⟨sfa, oa, ra, ca, cb⟩
 
 end Iauthd.Properties
